@@ -8,6 +8,8 @@
    binary-LE / compact. *)
 From PV Require Import Proofs.HeaderP Proofs.PrefixP.
 From PVGen Require Import Gen GenSpec GenAsync GenEvents ErrSpec Proofs.TotalGenP Proofs.AsyncGenP Proofs.AsyncErrGenP Proofs.AsyncFuelP Proofs.EventsP.
+From PV Require Import Thrift.AsyncEv Proofs.AsyncEvP.
+From PVGen Require Import GenAsyncEv Proofs.AsyncEvGenP.
 Open Scope Z_scope.
 
 (* ---------- delivery schedules (GenEvents.v, Proofs/EventsP.v) ----------
@@ -41,13 +43,44 @@ Theorem C12_read_exact_to_vec_events : forall step len es,
 Proof. exact ev_read_exact_to_vec_spec. Qed.
 Print Assumptions C12_read_exact_to_vec_events.
 
+(* ---------- the emitted decode_async over a delivery schedule (GenAsyncEv.v, Proofs/AsyncEvGenP.v) ----------
+   gen_decode_async_ev is GenAsync.gen_decode_async clause for clause with every read going through the event-level
+   primitives of PV.Thrift.AsyncEv (the same stream definitions): scalars, strings / binaries (read_exact_to_vec, both paths,
+   any poll size), the field / list / map headers, containers, nested structs and unions, the asynchronous skipper.
+   For EVERY schema, declared type, protocol, fuel and reader context, for every event list whose chunks concatenate to l --
+   any chunking, empty chunks, Pending tokens anywhere, EOF anywhere -- it returns what gen_decode_async returns on l:
+   the same value, the same error, and the events left deliver exactly the bytes gen_decode_async leaves unread. *)
+Theorem C12_gen_schedule_free : forall S step p fuel t es l rcx, bytes_of es = l ->
+  match gen_decode_async_ev S step p fuel t (mkE es rcx) with
+  | Ok (v, s') => gen_decode_async S p fuel t (mkS l rcx) = Ok (v, mkS (bytes_of (ebuf s')) (erc s'))
+  | Err e => gen_decode_async S p fuel t (mkS l rcx) = Err e
+  | Panic st => gen_decode_async S p fuel t (mkS l rcx) = Panic st
+  end.
+Proof. exact gen_async_schedule_free_ev. Qed.
+Print Assumptions C12_gen_schedule_free.
+
+(* any two delivery schedules of the same bytes, any poll sizes: same value / error, same bytes left, same reader context *)
+Theorem C12_gen_two_schedules : forall S step1 step2 p fuel t es1 es2 rcx, bytes_of es1 = bytes_of es2 ->
+  match gen_decode_async_ev S step1 p fuel t (mkE es1 rcx), gen_decode_async_ev S step2 p fuel t (mkE es2 rcx) with
+  | Ok (v1, s1), Ok (v2, s2) => v1 = v2 /\ bytes_of (ebuf s1) = bytes_of (ebuf s2) /\ erc s1 = erc s2
+  | Err e1, Err e2 => e1 = e2
+  | Panic q1, Panic q2 => q1 = q2
+  | _, _ => False
+  end.
+Proof. exact gen_async_two_schedules. Qed.
+Print Assumptions C12_gen_two_schedules.
+
+(* the asynchronous skipper alone *)
+Theorem C12_gen_skip_schedule_free : forall step p f ty s,
+  ev_eq (e_askip step p f ty s) (askip p f ty (abs s)).
+Proof. exact e_askip_eq. Qed.
+Print Assumptions C12_gen_skip_schedule_free.
+
 (* lifted: EVERY decoder that uses the stream only through these reads (sprog: any continuation-passing composition of
    read_exact / read_varint_async / read_exact_to_vec, failures and returns; the reader context travels in the
    continuations) gives, on every delivery schedule, what it gives on the delivered bytes: value, error, bytes left.
-   PARTIAL with respect to the property's "the emitted decode_async": gen_decode_async (GenAsync.v) is written over the
-   byte-level primitives of PV.Thrift.Async, which ARE these reads on the delivered bytes (run_b_take, run_b_varint; a_bytes =
-   length test + the same take); its transcription into an sprog -- which would make the statement about gen_decode_async
-   itself -- is not done. *)
+   (The statement about gen_decode_async itself is C12_gen_schedule_free above; this one is about the whole class of
+   decoders composed of the three reads.) *)
 Theorem C12_gen_schedule_free_partial : forall A step (q : sprog A) es,
   match run_e step q es with
   | Ok (a, es') => run_b q (bytes_of es) = Ok (a, bytes_of es')
